@@ -374,6 +374,7 @@ class Unit:
         self.obligations = {}   # id -> {props, kind, text, fn}
         self.functions = []     # real functions under contract: {id, file, line, props}
         self.havocs = []
+        self.lost_anchors = []
         self.trait_contracts = []
         self.reduced = []
         self.order = []
@@ -599,7 +600,18 @@ class Unit:
                 self.obligations[oid] = {'props': props, 'kind': 'assert', 'fn': fid, 'text': ' '.join(text.split())[:300], 'property_level': '@property' in text}
             inserts.append((pos, [Seg('\n' + text + '\n', fn=fid, clause=(oid if has_assert else None), kind='ghost')]))
         for (n, needle, side, text) in block.get('ats', []):
-            pos = _nth(body, needle, n, spec)
+            try:
+                pos = _nth(body, needle, n, spec)
+            except GenError as e:
+                # a ghost block whose anchor statement is gone: the rest of the function is still verified; the
+                # obligation of this block (if any) is reported as lost (undecided unless the replay finds an input)
+                acount += 1
+                oid = '%s/%s/assert#%d' % (self.name, fid, acount)
+                if re.search(r'\bassert\b', rs.mask(text)):
+                    self.obligations[oid] = {'props': props, 'kind': 'assert', 'fn': fid, 'text': ' '.join(text.split())[:300], 'property_level': '@property' in text}
+                    self.lost_anchors.append({'obligation': oid, 'reason': str(e)})
+                    continue
+                raise
             if side == 'after':
                 pos += len(needle)
             acount += 1
